@@ -53,9 +53,11 @@ class PrefetchIterator:
     self._cond = threading.Condition()
     self._buffer = []
     self._active = True
+    # must be set before the thread starts: the prefetch loop may record an
+    # error (e.g. the source fails on its first item) right away.
+    self._error = None
     self._thread = threading.Thread(target=self._prefetch_loop, daemon=True)
     self._thread.start()
-    self._error = None
 
   def __iter__(self):
     return self
